@@ -6,7 +6,7 @@ EXTENDS IterDsl, Json, IOUtils, SequencesExt
 CONSTANTS Depth,
           Wide      \* TRUE: also the boundary arguments take(0) / take(5) / skip(0) / skip(5) and nth(0) / nth(4)
 
-WideAdapters == IF Wide THEN {Ad("take", 0), Ad("take", 5), Ad("skip", 0), Ad("skip", 5)} ELSE {}
+WideAdapters == IF Wide THEN {Ad("take", 0), Ad("take", 5), Ad("skip", 0), Ad("skip", 5), Ad("map_s", 0)} ELSE {}
 Adapters == WideAdapters \cup {Ad("enumerate", 0), Ad("filter", 0), Ad("filter_map", 0), Ad("flat_map", 0), Ad("flatten", 0), Ad("map", 1), Ad("rev", 0),
              Ad("skip", 1), Ad("skip_while", 0), Ad("take", 2), Ad("take_while", 0), Ad("zip", 0)}
 Consumers == {"for_each", "collect", "all", "any", "count", "find", "find_map", "rfind", "fold", "rfold", "next",
